@@ -140,6 +140,15 @@ Example C15_button_nonvacuous :
 Proof. vm_compute. repeat split; reflexivity. Qed.
 Print Assumptions C15_button_nonvacuous.
 
+(* non-vacuity of the loop-top guard: first pass released, then a press: one click, in pass 1;
+   and the same signal preceded by a pressed pass 0 is the finding's witness *)
+Example C15_looptop_nonvacuous :
+  map clicks (dev_run LoopTop (Some 0%nat) true [(false, 1%nat); (true, 1%nat); (true, 2%nat)]) = [0; 1; 0]%nat /\
+  map clicks (dev_run LoopTop (Some 0%nat) true [(true, 1%nat); (true, 1%nat)]) = [1; 0]%nat /\
+  map clicks (dev_run BeforeLoop (Some 0%nat) true [(true, 1%nat); (true, 1%nat)]) = [0; 0]%nat.
+Proof. vm_compute. repeat split; reflexivity. Qed.
+Print Assumptions C15_looptop_nonvacuous.
+
 (* ---------------------------------------------------------------- Potentiometer *)
 
 (* n read() calls are n analogRead events, all of the declared pin, each returning the next
